@@ -263,7 +263,8 @@ class World:
         for cb in [cb for cb in self.disc_cbs if cb['task'] is task and cb['resolved']]:
             self.disc_cbs.remove(cb)
             cb['conn'].state = 'closed'
-            if cb['kind'] == '_transfer' and cb['resolved'] == 'fail':
+            if cb['kind'] == '_transfer' and cb['resolved'] == 'fail' and task.done():
+                # the _transfer task died in its disconnect: to_block.pending_conns is never undone
                 name = cb['to_block']
                 self.phantom_blocks[name] = self.phantom_blocks.get(name, 0) + 1
 
@@ -621,7 +622,7 @@ class Runner:
                         # may this error legitimately be handed to waiting requests?
                         cb['fut'].exception().legit = n > pool_config.CONNECT_FAILURE_RETRIES
             had_xfail = [cb for cb in w.disc_cbs if cb['task'] is ran_task and cb['resolved'] == 'fail'
-                         and cb['kind'] == '_transfer']
+                         and cb['kind'] == '_transfer' and ran_task.done()]
             w.settle(ran_task)
             for cb in had_xfail:
                 w.problems.append(('transfer-disconnect-failure',
@@ -718,6 +719,9 @@ class Runner:
             only_timers = not opts
             if only_timers:
                 opts += [('timer', 1)]
+            elif cfg.fifo and hs:
+                # real asyncio: the clock does not jump while handles are ready
+                pass
             elif rng.random() < cfg.p_timer:
                 opts += [('timer', 2), ('adv', 1)]
         if not fair and cfg.p_prune and rng.random() < cfg.p_prune and w.pool._blocks:
@@ -888,21 +892,28 @@ def shrink(cfg_dict, trace, pred, *, drain_seed=None, max_tests=600):
 
 
 def stuck_signature(w: World, stuck_ids) -> str:
-    """coarse class of a hang, used as the stable part of the finding key"""
+    """coarse class of a hang (the stable part of the finding key).  Hangs that follow an
+    injected fault are named after the fault; fault-free hangs by the shape of the final
+    state: the stuck block has no connection (`no-conns`) / has one (`has-conns`), an idle
+    connection sits in another block (`idle-elsewhere`), the pool is in Mode D (`starving`),
+    capacity is free (`room`) or used up (`full`)."""
     pool = w.pool
-    feats = set()
     dbs = {w.reqs[i].db for i in stuck_ids}
+    blocks = [(n, b) for n, b in pool._blocks.items() if n in dbs]
+    if any(w.phantom_blocks.get(n) for n, _ in blocks):
+        return 'after-transfer-disconnect-failure'
+    if w.problems.counts.get('loop-exception'):
+        return 'after-tick-raised'
+    if any(b.suppressed for _, b in blocks):
+        return 'after-prune-inactive'
+    if any(b.connect_failures_num > pool_config.CONNECT_FAILURE_RETRIES for _, b in blocks):
+        return 'after-connect-retries-exhausted'
+    feats = set()
     feats.add('room' if pool._cur_capacity < pool._max_capacity else 'full')
     if pool._is_starving:
         feats.add('starving')
     for n, b in pool._blocks.items():
         if n in dbs:
-            if b.suppressed:
-                feats.add('suppressed')
-            if w.phantom_blocks.get(n):
-                feats.add('phantom-pending')
-            if b.connect_failures_num > pool_config.CONNECT_FAILURE_RETRIES:
-                feats.add('connect-exhausted')
             if len(b.conns) + b.pending_conns == 0:
                 feats.add('no-conns')
             elif b.conn_stack:
@@ -911,8 +922,6 @@ def stuck_signature(w: World, stuck_ids) -> str:
                 feats.add('has-conns')
         elif b.conn_stack:
             feats.add('idle-elsewhere')
-    if w.problems.counts.get('loop-exception'):
-        feats.add('tick-raised')
     return ','.join(sorted(feats))
 
 
@@ -1275,12 +1284,13 @@ def run_check(ctx: 'core.Ctx', which: str):
             if isinstance(d, dict) and 'cfg' in d and 'trace' in d:
                 cases.append(('replay', d['cfg'], None, d['trace']))
     else:
-        cdir = _os.path.join(core.VERIF, 'corpus', 'C15')
-        if _os.path.isdir(cdir):
-            for fn in sorted(_os.listdir(cdir)):
-                if fn.endswith('.json'):
-                    d = _json.load(open(_os.path.join(cdir, fn)))
-                    cases.append(('corpus:' + fn, d['cfg'], None, d['trace']))
+        for sub in ('C15', 'C16'):      # both checks replay both directories
+            cdir = _os.path.join(core.VERIF, 'corpus', sub)
+            if _os.path.isdir(cdir):
+                for fn in sorted(_os.listdir(cdir)):
+                    if fn.endswith('.json'):
+                        d = _json.load(open(_os.path.join(cdir, fn)))
+                        cases.append((f'corpus:{sub}/{fn}', d['cfg'], None, d['trace']))
         n = ctx.budget(400, 20000)
         for i in range(n):
             seed_str = f'{ctx.pid}:{ctx.seed}:{i}'
